@@ -611,7 +611,8 @@ static void c20_history(int h, void *arg) {
         if (chance(20)) g_locality = rnd(5);
         if (nvpct && chance((uint32_t)nvpct)) {
             long before = g_store_calls;
-            if (c20nv_owner && chance(55)) c20nv_random_owner(&b); else c20nv_random(&b);
+            if (c20nv_owner && chance(25)) c20ctr_random(&b);
+            else if (c20nv_owner && chance(50)) c20nv_random_owner(&b); else c20nv_random(&b);
             /* a power cycle / suspend-resume placed immediately after the command, mostly when it wrote storage or set a
                lock (so that no later command re-writes the permanent state first) */
             if (chance(g_store_calls != before ? 12 : 3)) {
